@@ -45,14 +45,47 @@ func (v Val) String() string {
 // predicate abstraction: branch conditions that evaluate to a known boolean
 // under the assumptions are followed one way only, anything else both ways.
 // It is an exhaustive dataflow over a finite domain: no solver, no execution.
+// Env holds the path's knowledge about SSA values that have no single definition-time
+// value: phis (resolved by the edge taken), parameters of followed callees (bound to the
+// arguments) and results of followed calls (bound per explored return of the callee).
+type Env = map[ssa.Value]Val
+
+// frame is one activation of a followed callee: where to continue in the caller.
+type frame struct {
+	parent *frame
+	call   *ssa.Call
+	env    Env // caller's env at the call
+	raw    map[*ssa.Phi]ssa.Value
+	key    string
+	depth  int
+}
+
 type Walk struct {
 	Fn     *ssa.Function
 	Assume func(v ssa.Value) (Val, bool) // base facts about values, matched by shape
-	// AfterCall lets a rule stop or refine at calls: return false to cut the path here
+	// Visit lets a rule stop or refine at instructions: return false to cut the path here
 	// (e.g. a callee that never returns, or the marked target).
-	Visit func(in ssa.Instruction, env map[*ssa.Phi]Val) bool
+	Visit func(in ssa.Instruction, env Env) bool
+	// Follow, when set, makes the exploration descend into statically resolved callees for
+	// which it returns true (bounded depth, no recursion): the callee's paths are explored with
+	// its parameters bound to the argument values, and the caller continues once per explored
+	// return with the results bound. Reached then includes the callee's instructions.
+	Follow func(callee *ssa.Function) bool
+	// VisitRaw, when set, is called like Visit but also receives the phi resolutions of the path.
+	VisitRaw func(in ssa.Instruction, env Env, raw map[*ssa.Phi]ssa.Value) bool
+	// Init, when set, is a per-path state threaded through the exploration: it is forked where the
+	// path forks, handed to Step before every non-phi instruction, and to OnCall / OnReturn when a
+	// followed call is entered and left. Memoisation is off in this mode (paths are enumerated;
+	// back edges are cut), so it is meant for short, mostly straight-line functions.
+	Init     PathState
+	Step     func(in ssa.Instruction, st PathState, raw map[*ssa.Phi]ssa.Value) bool
+	OnCall   func(call *ssa.Call, callee *ssa.Function, st PathState)
+	OnReturn func(call *ssa.Call, ret *ssa.Return, st PathState)
+	onStack  map[string]int
 
 	Reached  map[ssa.Instruction]bool
+	Seq      map[ssa.Instruction]int     // first-visit order of every reached instruction
+	Edges    map[[2]*ssa.BasicBlock]bool // control-flow edges actually taken
 	Returns  []*RetOutcome
 	Panics   int
 	steps    int
@@ -60,10 +93,15 @@ type Walk struct {
 	seen     map[string]bool
 }
 
+// PathState is a rule-defined per-path state (see Walk.Init).
+type PathState interface{ Fork() PathState }
+
 type RetOutcome struct {
-	Ret  *ssa.Return
-	Vals []Val
-	Raw  []ssa.Value // result values with phis resolved along the path where possible
+	Ret    *ssa.Return
+	Vals   []Val
+	Raw    []ssa.Value            // result values with phis resolved along the path where possible
+	RawEnv map[*ssa.Phi]ssa.Value // every phi resolution of the path that ended here
+	St     PathState              // the path state at the return (path-state mode)
 }
 
 const walkStepCap = 400000
@@ -71,6 +109,8 @@ const walkStepCap = 400000
 func (w *Walk) init() {
 	if w.Reached == nil {
 		w.Reached = map[ssa.Instruction]bool{}
+		w.Seq = map[ssa.Instruction]int{}
+		w.Edges = map[[2]*ssa.BasicBlock]bool{}
 		w.seen = map[string]bool{}
 	}
 }
@@ -78,41 +118,46 @@ func (w *Walk) init() {
 // FromEntry explores from the function entry.
 func (w *Walk) FromEntry() *Walk {
 	w.init()
-	w.block(w.Fn.Blocks[0], 0, map[*ssa.Phi]Val{}, map[*ssa.Phi]ssa.Value{})
+	w.block(w.Fn.Blocks[0], 0, Env{}, map[*ssa.Phi]ssa.Value{}, nil, w.Init)
 	return w
 }
 
 // After explores from the instruction following `in`.
 func (w *Walk) After(in ssa.Instruction) *Walk {
 	w.init()
-	w.block(in.Block(), instrIndex(in)+1, map[*ssa.Phi]Val{}, map[*ssa.Phi]ssa.Value{})
+	w.block(in.Block(), instrIndex(in)+1, Env{}, map[*ssa.Phi]ssa.Value{}, nil, w.Init)
 	return w
 }
 
 // FromEdge explores from the start of block `to` entered from `from`.
 func (w *Walk) FromEdge(from, to *ssa.BasicBlock) *Walk {
 	w.init()
-	env := map[*ssa.Phi]Val{}
+	env := Env{}
 	raw := map[*ssa.Phi]ssa.Value{}
-	w.enter(from, to, env, raw)
+	w.enter(from, to, env, raw, nil, w.Init)
 	return w
 }
 
-func envKey(env map[*ssa.Phi]Val) string {
+func envKey(env Env) string {
 	if len(env) == 0 {
 		return ""
 	}
 	var ks []string
 	for p, v := range env {
 		if v.Kind != 0 {
-			ks = append(ks, fmt.Sprintf("%s=%s", p.Name(), v))
+			if _, isPhi := p.(*ssa.Phi); isPhi {
+				ks = append(ks, fmt.Sprintf("%s=%s", p.Name(), v))
+			} else {
+				ks = append(ks, fmt.Sprintf("%p=%s", p, v))
+			}
 		}
 	}
 	sort.Strings(ks)
 	return strings.Join(ks, ",")
 }
 
-func (w *Walk) enter(from, to *ssa.BasicBlock, env map[*ssa.Phi]Val, raw map[*ssa.Phi]ssa.Value) {
+func (w *Walk) enter(from, to *ssa.BasicBlock, env Env, raw map[*ssa.Phi]ssa.Value, fr *frame, st PathState) {
+	w.Edges[[2]*ssa.BasicBlock{from, to}] = true
 	// resolve phis of `to` for the edge from->to (simultaneous assignment)
 	idx := -1
 	for i, p := range to.Preds {
@@ -149,7 +194,7 @@ func (w *Walk) enter(from, to *ssa.BasicBlock, env map[*ssa.Phi]Val, raw map[*ss
 	}
 	for _, u := range upds {
 		if !copied {
-			nenv = make(map[*ssa.Phi]Val, len(env)+len(upds))
+			nenv = make(Env, len(env)+len(upds))
 			for k, v := range env {
 				nenv[k] = v
 			}
@@ -166,18 +211,25 @@ func (w *Walk) enter(from, to *ssa.BasicBlock, env map[*ssa.Phi]Val, raw map[*ss
 		}
 		nraw[u.p] = u.r
 	}
-	w.block(to, 0, nenv, nraw)
+	w.block(to, 0, nenv, nraw, fr, st)
 }
 
-func (w *Walk) block(b *ssa.BasicBlock, from int, env map[*ssa.Phi]Val, raw map[*ssa.Phi]ssa.Value) {
+func (w *Walk) block(b *ssa.BasicBlock, from int, env Env, raw map[*ssa.Phi]ssa.Value, fr *frame, st PathState) {
 	if w.overflow {
 		return
 	}
 	key := fmt.Sprintf("%d@%d|%s", b.Index, from, envKey(env))
-	if w.seen[key] {
-		return
+	if fr != nil {
+		key = fr.key + "//" + b.Parent().Name() + ":" + key
 	}
-	w.seen[key] = true
+	if st == nil {
+		if w.seen[key] {
+			return
+		}
+		w.seen[key] = true
+	} else if w.inProgress(key) {
+		return // a loop: path states are not joined, cut the back edge
+	}
 	w.steps++
 	if w.steps > walkStepCap {
 		w.overflow = true
@@ -185,6 +237,9 @@ func (w *Walk) block(b *ssa.BasicBlock, from int, env map[*ssa.Phi]Val, raw map[
 	}
 	for i := from; i < len(b.Instrs); i++ {
 		in := b.Instrs[i]
+		if !w.Reached[in] {
+			w.Seq[in] = len(w.Seq)
+		}
 		w.Reached[in] = true
 		if w.Visit != nil {
 			if _, isPhi := in.(*ssa.Phi); !isPhi {
@@ -193,25 +248,51 @@ func (w *Walk) block(b *ssa.BasicBlock, from int, env map[*ssa.Phi]Val, raw map[
 				}
 			}
 		}
+		if w.Step != nil && st != nil {
+			if _, isPhi := in.(*ssa.Phi); !isPhi {
+				if !w.Step(in, st, raw) {
+					return
+				}
+			}
+		}
+		if w.VisitRaw != nil {
+			if _, isPhi := in.(*ssa.Phi); !isPhi {
+				if !w.VisitRaw(in, env, raw) {
+					return
+				}
+			}
+		}
 		switch t := in.(type) {
+		case *ssa.Call:
+			if w.followCall(t, b, i, env, raw, fr, st) {
+				return
+			}
 		case *ssa.If:
 			cv := w.eval(t.Cond, env)
 			if cv.Kind == 1 {
 				if cv.B {
-					w.enter(b, b.Succs[0], env, raw)
+					w.enter(b, b.Succs[0], env, raw, fr, st)
 				} else {
-					w.enter(b, b.Succs[1], env, raw)
+					w.enter(b, b.Succs[1], env, raw, fr, st)
 				}
 			} else {
-				w.enter(b, b.Succs[0], env, raw)
-				w.enter(b, b.Succs[1], env, raw)
+				var st2 PathState
+				if st != nil {
+					st2 = st.Fork()
+				}
+				w.enter(b, b.Succs[0], env, raw, fr, st)
+				w.enter(b, b.Succs[1], env, raw, fr, st2)
 			}
 			return
 		case *ssa.Jump:
-			w.enter(b, b.Succs[0], env, raw)
+			w.enter(b, b.Succs[0], env, raw, fr, st)
 			return
 		case *ssa.Return:
-			ro := &RetOutcome{Ret: t}
+			if fr != nil {
+				w.returnTo(fr, t, env, st)
+				return
+			}
+			ro := &RetOutcome{Ret: t, RawEnv: raw, St: st}
 			for _, r := range t.Results {
 				ro.Vals = append(ro.Vals, w.eval(r, env))
 				rv := unspill(r)
@@ -233,11 +314,11 @@ func (w *Walk) block(b *ssa.BasicBlock, from int, env map[*ssa.Phi]Val, raw map[
 
 // eval computes the abstract value of v under the assumptions and the phi
 // resolutions of the current path.
-func (w *Walk) eval(v ssa.Value, env map[*ssa.Phi]Val) Val {
+func (w *Walk) eval(v ssa.Value, env Env) Val {
 	return w.evalD(v, env, 0)
 }
 
-func (w *Walk) evalD(v ssa.Value, env map[*ssa.Phi]Val, d int) Val {
+func (w *Walk) evalD(v ssa.Value, env Env, d int) Val {
 	if d > 12 {
 		return unknown
 	}
@@ -259,6 +340,11 @@ func (w *Walk) evalD(v ssa.Value, env map[*ssa.Phi]Val, d int) Val {
 		}
 		return unknown
 	case *ssa.Phi:
+		if r, ok := env[x]; ok {
+			return r
+		}
+		return unknown
+	case *ssa.Parameter, *ssa.Call, *ssa.Extract:
 		if r, ok := env[x]; ok {
 			return r
 		}
@@ -401,4 +487,100 @@ func guardedBy(call ssa.Instruction, rv ssa.Value, target ssa.Instruction) (bool
 		return false, "the target is still reachable when the check fails (result ignored or not leading to a failure exit)"
 	}
 	return true, ""
+}
+
+const walkMaxDepth = 4
+
+// followCall explores a statically resolved callee in place of the call instruction.
+// It returns true when it took over the continuation of the current path.
+func (w *Walk) followCall(call *ssa.Call, b *ssa.BasicBlock, idx int, env Env, raw map[*ssa.Phi]ssa.Value, fr *frame, st PathState) bool {
+	if w.Follow == nil {
+		return false
+	}
+	callee := call.Call.StaticCallee()
+	if callee == nil || len(callee.Blocks) == 0 || !w.Follow(callee) {
+		return false
+	}
+	depth := 0
+	for f := fr; f != nil; f = f.parent {
+		depth++
+		if f.call.Call.StaticCallee() == callee {
+			return false // recursion: treat the call as opaque
+		}
+	}
+	if depth >= walkMaxDepth || callee == w.Fn {
+		return false
+	}
+	for _, bb := range callee.Blocks {
+		if bb == callee.Recover {
+			continue
+		}
+		for _, in := range bb.Instrs {
+			if _, isDefer := in.(*ssa.Defer); isDefer {
+				return false // deferred calls reorder effects: keep opaque
+			}
+		}
+	}
+	nf := &frame{parent: fr, call: call, env: env, raw: raw, depth: depth + 1}
+	pk := ""
+	if fr != nil {
+		pk = fr.key
+	}
+	nf.key = fmt.Sprintf("%s>%p{%s}", pk, call, envKey(env))
+	cenv := Env{}
+	for i, p := range callee.Params {
+		if i < len(call.Call.Args) {
+			if v := w.eval(call.Call.Args[i], env); v.Kind != 0 {
+				cenv[p] = v
+			}
+		}
+	}
+	if w.OnCall != nil {
+		w.OnCall(call, callee, st)
+	}
+	w.block(callee.Blocks[0], 0, cenv, map[*ssa.Phi]ssa.Value{}, nf, st)
+	return true
+}
+
+// returnTo continues the caller after a followed call, with the call's results bound to what
+// this return of the callee yields.
+func (w *Walk) returnTo(fr *frame, ret *ssa.Return, env Env, st PathState) {
+	if w.OnReturn != nil {
+		w.OnReturn(fr.call, ret, st)
+	}
+	nenv := make(Env, len(fr.env)+len(ret.Results))
+	for k, v := range fr.env {
+		nenv[k] = v
+	}
+	call := fr.call
+	if len(ret.Results) == 1 {
+		if v := w.eval(ret.Results[0], env); v.Kind != 0 {
+			nenv[call] = v
+		} else {
+			delete(nenv, call)
+		}
+	} else if refs := call.Referrers(); refs != nil {
+		for _, ref := range *refs {
+			if ex, ok := ref.(*ssa.Extract); ok && ex.Index < len(ret.Results) {
+				if v := w.eval(ret.Results[ex.Index], env); v.Kind != 0 {
+					nenv[ex] = v
+				} else {
+					delete(nenv, ex)
+				}
+			}
+		}
+	}
+	w.block(call.Block(), instrIndex(call)+1, nenv, fr.raw, fr.parent, st)
+}
+
+// inProgress implements the back-edge cut of the path-state mode: a (block, env) key that is
+// already on the current exploration stack is not entered again.
+func (w *Walk) inProgress(key string) bool {
+	// the exploration is a plain recursion; approximating the stack by a visit counter per key
+	// is enough to stop unbounded unrolling: allow each key a bounded number of visits.
+	if w.onStack == nil {
+		w.onStack = map[string]int{}
+	}
+	w.onStack[key]++
+	return w.onStack[key] > 64
 }
